@@ -101,3 +101,6 @@ func itoa(n int64) string {
 	}
 	return string(b)
 }
+
+// VerifDDL is the embedded schema (to pre-fill a job's queue file before the crawler starts).
+func VerifDDL() string { return ddl }
